@@ -123,7 +123,10 @@ class Flow(object):
         r.shape = shape
         q = (lambda: eng.int('sqos', 0, 2)) if qos is None else (lambda: qos)
         t0 = [0x61 + (r.order if tag is None else tag) % 26]
-        if shape == 'str':
+        if shape == 'empty':
+            r.topics = []
+            args = ([],)
+        elif shape == 'str':
             r.topics = [(t0, q())]
             args = (mkstr(eng, t0), r.topics[0][1])
         elif shape == 'tuple':
@@ -147,7 +150,10 @@ class Flow(object):
         self.reqs.append(r)
         r.shape = shape
         t0 = [0x75, 0x61 + r.order % 26]
-        if shape == 'str':
+        if shape == 'empty':
+            r.topics = []
+            arg = []
+        elif shape == 'str':
             r.topics = [t0]
             arg = mkstr(eng, t0)
         else:
